@@ -414,10 +414,18 @@ def check(prop, tier, seed):
             # sampled failures on a fully proved instance mean the contract and the proof disagree: engine bug
             new_fail = [f for f in smp.get("failures", []) if not (f.get("known") and f["known"] in kf)]
             if new_fail and not fails:
-                print(f"CHECKER-BROKEN property={prop}: {inst} is proved but fails natively on {new_fail[0]['inputs']}: "
-                      f"{new_fail[0]['why']}")
-                write_evidence(prop, tier, seed, t0, results, violations, bounded, samples, api, note="proof/native disagreement")
-                return 3
+                # the executable contract fails on a concrete input of the real code: that is a violation whatever the
+                # engine concluded (the native run is the ground truth); the disagreement itself is reported as well
+                f = new_fail[0]
+                os.makedirs(replay_dir, exist_ok=True)
+                path = os.path.join(replay_dir, safe_name(f"{inst}-native") + ".json")
+                json.dump({"property": prop, "contract": r["contract"], "binding": r["binding"], "obligation": "native-contract-check",
+                           "inputs": f["inputs"], "native": {"status": "fail", "why": f["why"]},
+                           "note": "found by the native contract check; the engine had discharged this instance (engine / CPython "
+                                   "disagreement, e.g. an unmodelled library function)"}, open(path, "w"), indent=1)
+                print(f"WARNING property={prop}: {inst} was discharged by the engine but fails natively -- engine model and CPython disagree")
+                violations.append({"instance": inst, "obligation": "native-contract-check", "replay": path, "why": f["why"],
+                                   "confirmed": True})
             for f in smp.get("failures", []):
                 if f.get("known") and f["known"] in kf:
                     findings_seen.setdefault(f["known"], {"replay": None, "why": f["why"], "inputs": f["inputs"]})
